@@ -4,6 +4,7 @@
 -/
 import CimbaModel.Sim.S4Carry
 import CimbaModel.Sim.S1SilentIRun
+import CimbaModel.Sim.S4StartBlk
 
 namespace CimbaModel.Sim.S4
 open CimbaModel CimbaModel.Sim CimbaModel.Sim.S3 CimbaModel.Event CimbaModel.Generated CimbaModel.KPQ
@@ -13,7 +14,7 @@ open CimbaModel.HashHeap (HTag Item Order HH WF abs liveTags KeysBelowCounter)
 structure Good (X : World → Prop) (w : World) : Prop where
   s3 : S3.AllInv w
   s1 : Sim.FullInv w
-  start : StartInv w
+  start : StartOk w
   rb : RunBlocked w
   st : StaticOk w
   prog : ProgOk w
@@ -141,7 +142,7 @@ theorem nf_dispatch {X : World → Prop} (hX : Carry X) (hF : Facts X) {w w' : W
         unfold S4.prep
         simp [ha, aStart, aTime, aProc, aEvent, aCond, aIntr]
       have hnrun : (w.proc p).status ≠ .running := by
-        have := hG.start.nr t htm ha
+        have := hG.start.inv.nr t htm ha
         rw [hpdef] at this; exact this
       have hnrunT : ¬ (wT.proc p).status = .running := by rw [hprocT]; exact hnrun
       rw [if_neg hnrunT] at hroom ⊢
@@ -263,5 +264,69 @@ theorem nf_dispatch {X : World → Prop} (hX : Carry X) (hF : Facts X) {w w' : W
       exact absurd hau (hp.nz t htm (hsig0 hs)).2.1
     · rw [if_neg hau]
       exact hsT.nf
+
+
+/-! ### along runs -/
+
+theorem Good.dispatch {X : World → Prop} (hX : Carry X) {w w' : World} (h : Good X w) (hd : dispatch w = some w') : Good X w' :=
+  ⟨h.s3.dispatch hd, fullinv_dispatch h.s1 hd, h.start.dispatch hd, h.rb.dispatch hd, h.st.ofStat (Stat.dispatch hd),
+   h.prog.ofStat (Stat.dispatch hd), hX.dispatch h.x h.prog hd⟩
+
+theorem PqMono.dispatch {w w' : World} (hd : dispatch w = some w') : PqMono w w' := by
+  rw [S3.dispatch_eq] at hd
+  split at hd
+  · cases hd
+  · rename_i t ev' hn
+    simp only [Option.some.injEq] at hd
+    subst hd
+    refine PqMono.pre_eq (w1 := S3.takeNext w t ev') ?_ (takeNext_pqs w t ev')
+    generalize S3.takeNext w t ev' = wT
+    simp only [S3.dispatchBody]
+    repeat' split
+    all_goals (first
+      | (with_reducible exact PqMono.refl _)
+      | (with_reducible exact PqMono.resumeProc _ _ _)
+      | (with_reducible apply PqMono.pre_eq (PqMono.resumeProc _ _ _); simp; done)
+      | (refine PqMono.pre_eq (PqMono.runScript _ _ _) ?_; rfl)
+      | (apply PqMono.of_eq; first | rfl | (simp; done)))
+
+theorem nf_reach {X : World → Prop} (hX : Carry X) (hF : Facts X) {w0 w : World} (hG : Good X w0) (hnf : w0.fault = none)
+    (hr : Reach w0 w) : Good X w ∧ PqMono w0 w ∧ (PqRoom w → w.fault = none) := by
+  induction hr with
+  | refl => exact ⟨hG, PqMono.refl _, fun _ => hnf⟩
+  | step _ hd ih =>
+    obtain ⟨hg1, hm1, hn1⟩ := ih
+    have hm := PqMono.dispatch hd
+    exact ⟨hg1.dispatch hX hd, hm1.trans hm, fun hroom => nf_dispatch hX hF hg1 (hn1 (hroom.of_mono hm)) hd hroom⟩
+
+theorem PqMono.runAll : ∀ (fuel : Nat) (w : World), PqMono w (Sim.runAll fuel w) := by
+  intro fuel
+  induction fuel with
+  | zero => intro w; exact PqMono.of_eq rfl
+  | succ n ih =>
+    intro w
+    unfold Sim.runAll
+    split
+    · exact PqMono.refl w
+    · split
+      · exact PqMono.refl w
+      · rename_i w' hd
+        exact (PqMono.dispatch hd).trans (ih w')
+
+theorem nf_runAll {X : World → Prop} (hX : Carry X) (hF : Facts X) : ∀ (fuel : Nat) (w : World), Good X w → w.fault = none →
+    PqRoom (runAll fuel w) → (runAll fuel w).fault = none := by
+  intro fuel
+  induction fuel with
+  | zero => intro w _ hnf _; exact hnf
+  | succ n ih =>
+    intro w hG hnf hroom
+    unfold Sim.runAll at hroom ⊢
+    rw [if_neg (by simp [hnf])] at hroom ⊢
+    split
+    · exact hnf
+    · rename_i w' hd
+      rw [hd] at hroom
+      simp only at hroom
+      exact ih w' (hG.dispatch hX hd) (nf_dispatch hX hF hG hnf hd (hroom.of_mono (PqMono.runAll n w'))) hroom
 
 end CimbaModel.Sim.S4
